@@ -1,5 +1,6 @@
 //! vfsx: runs case files against the real `vfs` crate (path dependency on /repo) and prints
 //! one canonical observation line per op, in the same format as the extracted Coq model.
+mod conc;
 mod fmt;
 mod wrappers;
 
@@ -23,27 +24,27 @@ struct Emb1;
 #[folder = "fixtures/empty"]
 struct EmbEmpty;
 
-enum Handle {
+pub enum Handle {
     R(Box<dyn SeekAndRead + Send>),
     W(Box<dyn SeekAndWrite + Send>),
 }
 
-struct Case {
-    name: String,
-    bases: Vec<Option<Box<dyn FileSystem>>>,
-    tmpdirs: Vec<PathBuf>,
-    roots: Vec<VfsPath>,
-    handles: HashMap<usize, Handle>,
-    set_times: HashSet<i128>,
-    shared: Arc<Mutex<Shared>>,
-    nops: usize,
-    sort: bool,
+pub struct Case {
+    pub name: String,
+    pub bases: Vec<Option<Box<dyn FileSystem>>>,
+    pub tmpdirs: Vec<PathBuf>,
+    pub roots: Vec<VfsPath>,
+    pub handles: HashMap<usize, Handle>,
+    pub set_times: HashSet<i128>,
+    pub shared: Arc<Mutex<Shared>>,
+    pub nops: usize,
+    pub sort: bool,
 }
 
 static COUNTER: std::sync::atomic::AtomicUsize = std::sync::atomic::AtomicUsize::new(0);
 
 impl Case {
-    fn new(name: &str, sort: bool) -> Case {
+    pub fn new(name: &str, sort: bool) -> Case {
         Case {
             name: name.to_string(),
             bases: vec![],
@@ -57,7 +58,7 @@ impl Case {
         }
     }
     /// every instance k is wrapped: listings sorted (unless --unsorted), calls recorded with id k
-    fn wrap(&self, inner: Box<dyn FileSystem>) -> VfsPath {
+    pub fn wrap(&self, inner: Box<dyn FileSystem>) -> VfsPath {
         VfsPath::new(HarnessFS {
             inner,
             sort: self.sort,
@@ -65,7 +66,7 @@ impl Case {
             shared: self.shared.clone(),
         })
     }
-    fn path_of(&self, j: usize, hexpath: &str) -> VfsPath {
+    pub fn path_of(&self, j: usize, hexpath: &str) -> VfsPath {
         let s = String::from_utf8(unhex(hexpath)).unwrap();
         if s.is_empty() {
             self.roots[j].clone()
@@ -92,7 +93,7 @@ impl Case {
         }
         Ok(p)
     }
-    fn cleanup(&mut self) {
+    pub fn cleanup(&mut self) {
         self.handles.clear();
         self.roots.clear();
         self.bases.clear();
@@ -193,7 +194,7 @@ fn snap_dir_gen(reads: bool, p: &VfsPath, set: &HashSet<i128>, out: &mut Vec<Str
     }
 }
 
-fn run_op(c: &mut Case, idx: usize, toks: &[&str]) -> String {
+pub fn run_op(c: &mut Case, idx: usize, toks: &[&str]) -> String {
     let set = c.set_times.clone();
     let t = |s: &str| -> i128 { s.parse().unwrap() };
     macro_rules! on {
@@ -395,10 +396,49 @@ fn run_op(c: &mut Case, idx: usize, toks: &[&str]) -> String {
     }
 }
 
+/// handle one `base ...` / `fs ...` line of a case; returns false if the line is something else
+pub fn config_line(cur: &mut Case, toks: &[&str]) -> bool {
+    match toks {
+        ["base", "mem"] => cur.bases.push(Some(Box::new(MemoryFS::new()))),
+        ["base", "phys"] => {
+            let n = COUNTER.fetch_add(1, std::sync::atomic::Ordering::SeqCst);
+            let d = std::env::temp_dir().join(format!("vfsx_{}_{}", std::process::id(), n));
+            let _ = std::fs::remove_dir_all(&d);
+            std::fs::create_dir_all(&d).unwrap();
+            cur.bases.push(Some(Box::new(PhysicalFS::new(&d))));
+            cur.tmpdirs.push(d);
+        }
+        ["fs", "base", i] => {
+            let b = cur.bases[i.parse::<usize>().unwrap()].take().expect("base used twice");
+            let r = cur.wrap(b);
+            cur.roots.push(r);
+        }
+        ["fs", "alt", j, p] => {
+            let root = cur.path_of(j.parse().unwrap(), p);
+            let r = cur.wrap(Box::new(AltrootFS::new(root)));
+            cur.roots.push(r);
+        }
+        ["fs", "ovl", _n, rest @ ..] => {
+            let mut layers = vec![];
+            for ch in rest.chunks(2) {
+                layers.push(cur.path_of(ch[0].parse().unwrap(), ch[1]));
+            }
+            let r = cur.wrap(Box::new(OverlayFS::new(&layers)));
+            cur.roots.push(r);
+        }
+        _ => return false,
+    }
+    true
+}
+
 fn main() {
     let args: Vec<String> = std::env::args().collect();
     let mut file = None;
     let mut sort = true;
+    if args.len() > 2 && args[1] == "--conc" {
+        conc::main(&args[2]);
+        return;
+    }
     for a in &args[1..] {
         if a == "--unsorted" {
             sort = false;
@@ -426,15 +466,6 @@ fn main() {
                 cur.cleanup();
                 cur = Case::new(n, sort);
             }
-            ["base", "mem"] => cur.bases.push(Some(Box::new(MemoryFS::new()))),
-            ["base", "phys"] => {
-                let n = COUNTER.fetch_add(1, std::sync::atomic::Ordering::SeqCst);
-                let d = std::env::temp_dir().join(format!("vfsx_{}_{}", std::process::id(), n));
-                let _ = std::fs::remove_dir_all(&d);
-                std::fs::create_dir_all(&d).unwrap();
-                cur.bases.push(Some(Box::new(PhysicalFS::new(&d))));
-                cur.tmpdirs.push(d);
-            }
             ["embfile", ..] => {}
             ["base", "emb"] => cur.bases.push(Some(Box::new(EmbeddedFS::<Emb1>::new()))),
             ["base", "physfix"] => {
@@ -443,24 +474,7 @@ fn main() {
             }
             ["base", "embempty"] => cur.bases.push(Some(Box::new(EmbeddedFS::<EmbEmpty>::new()))),
             ["fuel", _] => {}
-            ["fs", "base", i] => {
-                let b = cur.bases[i.parse::<usize>().unwrap()].take().expect("base used twice");
-                let r = cur.wrap(b);
-                cur.roots.push(r);
-            }
-            ["fs", "alt", j, p] => {
-                let root = cur.path_of(j.parse().unwrap(), p);
-                let r = cur.wrap(Box::new(AltrootFS::new(root)));
-                cur.roots.push(r);
-            }
-            ["fs", "ovl", _n, rest @ ..] => {
-                let mut layers = vec![];
-                for ch in rest.chunks(2) {
-                    layers.push(cur.path_of(ch[0].parse().unwrap(), ch[1]));
-                }
-                let r = cur.wrap(Box::new(OverlayFS::new(&layers)));
-                cur.roots.push(r);
-            }
+            t if config_line(&mut cur, t) => {}
             ["op", rest @ ..] => {
                 let idx = cur.nops;
                 cur.nops += 1;
